@@ -132,7 +132,7 @@ def _traj(case, coords):
     if k:
         # the analysed frames are the tail of a longer run (equilibration frames dropped by slicing): same frames, same answers
         c = np.array(coords, dtype=float) / DEN
-        lead = c[:1] + (np.arange(k, 0, -1)[:, None, None] * 0.013) * np.ones_like(c[:1])
+        lead = c[:1] + (np.arange(k, 0, -1)[:, None, None] * (53.0 / DEN)) * np.ones_like(c[:1])       # on the grid: arithmetic stays exact
         full = Trajectory(species=sp, coords=np.concatenate([lead, c], axis=0), lattice=synth.make_lattice([[6, 0, 0], [1, 7, 0], [0, 2, 8]]),
                           time_step=2e-15, metadata={'temperature': 300, 'tag': 'x'})
         if case.get('lead_disp'):
